@@ -110,8 +110,8 @@ fn parse_uri(buf: &[u8]) -> Result<(RequestUri<'_>, &[u8]), HttpParsingError> {
                     path_start_i = i;
                     break;
                 }
-                // end of uri
-                b' ' => {
+                // end of uri, or start of the query of a path-less absolute-form
+                b' ' | b'?' => {
                     break;
                 }
                 // validate authority byte
